@@ -304,6 +304,9 @@ class AIOKafkaClient:
                 log.warning(
                     "Unable to request metadata from node with id %s: %r", node_id, err
                 )
+                if isinstance(err, asyncio.TimeoutError):
+                    # close connection so it is renewed in next request
+                    conn.close(reason=CloseReason.CONNECTION_TIMEOUT)
                 continue
 
             # don't update the cluster if there are no valid nodes...the topic
